@@ -9,182 +9,12 @@
 #include "array.h"
 #include "message.h"
 #include "event.h"
+#include "types.h"
 
-#define MAXREG 4096
-#define MAXLOG 8192
+#include "drv_event_common.h"
 
-static MPT_STRUCT(dispatch) disp;
-static int have;
-
-/* registrations: the handler argument is &regs[r] */
-static struct reg { int dummy; } regs[MAXREG];
-static size_t nreg;
-
-/* log of handler invocations during the current op */
-static struct { size_t reg; int final; uintptr_t id; } logv[MAXLOG];
-static size_t logn;
-static int quiet;
-
-/* scripted result of the handler invoked by the current op */
-static int cur_res;
-static int cur_zero;
-
-static int handler(void *arg, MPT_STRUCT(event) *ev)
-{
-	size_t r = (struct reg *) arg - regs;
-	if (!quiet && logn < MAXLOG) {
-		logv[logn].reg = r;
-		logv[logn].final = ev ? 0 : 1;
-		logv[logn].id = ev ? ev->id : 0;
-		++logn;
-	}
-	if (!ev) return 0;
-	if (cur_zero) ev->id = 0;
-	return cur_res;
-}
-static void put_entry(size_t i)
-{
-	if (logv[i].final) printf("%zu:F", logv[i].reg);
-	else printf("%zu:%" PRIuPTR, logv[i].reg, logv[i].id);
-}
-/* log entries, stable-sorted by registration number (the order among several end-of-life notifications
- * of one op is not part of the property; the raw order is printed in the I section) */
-static void put_log_sorted(void)
-{
-	size_t idx[MAXLOG], i, j;
-	if (!logn) { fputc('-', stdout); return; }
-	for (i = 0; i < logn; i++) {
-		size_t k = i;
-		for (j = i; j > 0 && logv[idx[j-1]].reg > logv[k].reg; j--) idx[j] = idx[j-1];
-		idx[j] = k;
-	}
-	for (i = 0; i < logn; i++) { if (i) fputc(',', stdout); put_entry(idx[i]); }
-}
-static void put_log_raw(void)
-{
-	size_t i;
-	if (!logn) { fputc('-', stdout); return; }
-	for (i = 0; i < logn; i++) { if (i) fputc(',', stdout); put_entry(i); }
-}
-/* table as stored: read from the buffer memory, independent of the library's lookup functions */
-static size_t table(MPT_STRUCT(command) **base)
-{
-	MPT_STRUCT(buffer) *b = disp._d._buf;
-	if (!b) { *base = 0; return 0; }
-	*base = (MPT_STRUCT(command) *) (b + 1);
-	return b->_used / sizeof(**base);
-}
-static void put_state(void)
-{
-	MPT_STRUCT(command) *c;
-	size_t n = table(&c), i, r, any = 0;
-	printf(" | C live=");
-	/* live registrations in registration order */
-	for (r = 0; r < nreg; r++) {
-		for (i = 0; i < n; i++) {
-			if (c[i].cmd && c[i].arg == (void *) &regs[r]) {
-				if (any++) fputc(',', stdout);
-				printf("%" PRIuPTR ">%zu", c[i].id, r);
-			}
-		}
-	}
-	/* live slots that do not belong to the harness */
-	for (i = 0; i < n; i++) {
-		if (c[i].cmd && (c[i].cmd != (int (*)(void *, void *)) handler
-		    || (struct reg *) c[i].arg < regs || (struct reg *) c[i].arg >= regs + nreg)) {
-			if (any++) fputc(',', stdout);
-			printf("%" PRIuPTR ">?", c[i].id);
-		}
-	}
-	if (!any) fputc('-', stdout);
-	if (!disp._err.cmd) printf(" fb=-");
-	else if (disp._err.cmd == handler) printf(" fb=%zu", (size_t) ((struct reg *) disp._err.arg - regs));
-	else printf(" fb=?");
-	printf(" def=%" PRIuPTR, disp._def);
-}
-static void put_internals(const char *ret, uintptr_t evid)
-{
-	MPT_STRUCT(command) *c;
-	MPT_STRUCT(buffer) *b = disp._d._buf;
-	size_t n = table(&c), i;
-	printf(" | I ret=%s evid=%" PRIuPTR " used=%zu cap=%zu typed=%d slots=", ret, evid, n,
-	       b ? b->_size : (size_t) 0, b && b->_content_traits ? 1 : 0);
-	if (!n) fputc('-', stdout);
-	for (i = 0; i < n; i++) {
-		if (i) fputc(',', stdout);
-		if (!c[i].cmd) printf("%" PRIuPTR ":-", c[i].id);
-		else if (c[i].cmd == (int (*)(void *, void *)) handler) printf("%" PRIuPTR ":%zu", c[i].id, (size_t) ((struct reg *) c[i].arg - regs));
-		else printf("%" PRIuPTR ":?", c[i].id);
-	}
-	printf(" raw=");
-	put_log_raw();
-	fputc('\n', stdout);
-}
-static void result(const char *verdict, const char *ret, uintptr_t evid)
-{
-	printf("R %s log=", verdict);
-	put_log_sorted();
-	put_state();
-	put_internals(ret, evid);
-}
-static void result_verdict(long r)
-{
-	char buf[32];
-	snprintf(buf, sizeof(buf), "%ld", r);
-	result(r < 0 ? "refused" : "ok", buf, 0);
-}
-static void result_ret(long r, uintptr_t evid)
-{
-	char v[48], buf[32];
-	snprintf(v, sizeof(v), "ret=%ld", r);
-	snprintf(buf, sizeof(buf), "%ld", r);
-	result(v, buf, evid);
-}
-/* strict decimal: digits only, no leading zero */
-static int parse_dec(const char *s, unsigned long long *v)
-{
-	char *e;
-	if (!*s || *s < '0' || *s > '9' || (s[0] == '0' && s[1])) return -1;
-	for (e = (char *) s; *e; ++e) if (*e < '0' || *e > '9') return -1;
-	if (strlen(s) > 20) return -1;
-	errno = 0;
-	*v = strtoull(s, &e, 10);
-	if (*e || errno) return -1;
-	return 0;
-}
-/* "<int>" or "<int>z" (handler clears the event id before returning); range of int, "-0" not accepted */
-static int parse_res(const char *s)
-{
-	char tmp[32];
-	unsigned long long v;
-	size_t n = strlen(s);
-	int neg = 0, zero = 0;
-	if (!n || n >= sizeof(tmp)) return -1;
-	memcpy(tmp, s, n + 1);
-	if (tmp[n-1] == 'z') { zero = 1; tmp[--n] = 0; }
-	const char *d = tmp;
-	if (*d == '-') { neg = 1; ++d; }
-	if (parse_dec(d, &v)) return -1;
-	if (neg ? (v == 0 || v > 2147483648ULL) : (v > 2147483647ULL)) return -1;
-	cur_zero = zero;
-	cur_res = neg ? (int) -(long long) v : (int) v;
-	return 0;
-}
-static int parse_id(const char *s, uintptr_t *id)
-{
-	unsigned long long v;
-	if (parse_dec(s, &v)) return -1;
-	*id = (uintptr_t) v;
-	return 0;
-}
-static void teardown(void)
-{
-	if (!have) return;
-	quiet = 1;
-	mpt_dispatch_fini(&disp);
-	quiet = 0;
-	have = 0;
-}
+static MPT_STRUCT(dispatch) disp_storage;
+static void drv_release(void) { mpt_dispatch_fini(DISP); }
 
 int main(void)
 {
@@ -198,13 +28,15 @@ int main(void)
 		if (drv_nw < 2 || strcmp(drv_w[0], "e")) { puts("bad-op"); continue; }
 		const char *op = drv_w[1];
 		uintptr_t id;
-		if (!strcmp(op, "new") && drv_nw == 3 && (!strcmp(drv_w[2], "fb") || !strcmp(drv_w[2], "nofb"))) {
+		if (!strcmp(op, "new") && drv_nw == 3 && (!strcmp(drv_w[2], "fb") || !strcmp(drv_w[2], "nofb") || !strcmp(drv_w[2], "builtin"))) {
 			teardown();
-			mpt_dispatch_init(&disp);
+			D = (struct drv_rawdisp *) &disp_storage;
+			mpt_dispatch_init(DISP);
 			have = 1;
 			nreg = 1; /* registration 0 is the fallback */
-			if (drv_w[2][0] == 'f') { disp._err.cmd = handler; disp._err.arg = &regs[0]; }
-			else { disp._err.cmd = 0; disp._err.arg = 0; }
+			if (drv_w[2][0] == 'f') { D->_err.cmd = handler; D->_err.arg = &regs[0]; }
+			else if (drv_w[2][0] == 'n') { D->_err.cmd = 0; D->_err.arg = 0; }
+			/* builtin: the fallback mpt_dispatch_init installed stays */
 			result("ok", "0", 0);
 			continue;
 		}
@@ -213,23 +45,23 @@ int main(void)
 			if (parse_id(drv_w[2], &id) || nreg >= MAXREG) { puts("bad-op"); continue; }
 			size_t r = nreg++;
 			int ret = (*op == 's')
-			        ? mpt_dispatch_set(&disp, id, handler, &regs[r])
-			        : mpt_command_set(&disp._d, id, (int (*)(void *, void *)) handler, &regs[r]);
+			        ? mpt_dispatch_set(DISP, id, handler, &regs[r])
+			        : mpt_command_set((MPT_STRUCT(array) *) (void *) &D->_d, id, (int (*)(void *, void *)) handler, &regs[r]);
 			result_verdict(ret);
 		}
 		else if (!strcmp(op, "clear") && drv_nw == 3) {
 			if (parse_id(drv_w[2], &id)) { puts("bad-op"); continue; }
-			result_verdict(mpt_dispatch_set(&disp, id, 0, 0));
+			result_verdict(mpt_dispatch_set(DISP, id, 0, 0));
 		}
 		else if (!strcmp(op, "clearall") && drv_nw == 2) {
-			mpt_command_clear(&disp._d);
+			mpt_command_clear((MPT_STRUCT(array) *) (void *) &D->_d);
 			result("ok", "0", 0);
 		}
 		else if (!strcmp(op, "emit") && drv_nw == 5 && !strcmp(drv_w[2], "id")) {
 			MPT_STRUCT(event) ev = MPT_EVENT_INIT;
 			if (parse_id(drv_w[3], &id) || parse_res(drv_w[4])) { puts("bad-op"); continue; }
 			ev.id = id;
-			int ret = mpt_dispatch_emit(&disp, &ev);
+			int ret = mpt_dispatch_emit(DISP, &ev);
 			result_ret(ret, ev.id);
 		}
 		else if (!strcmp(op, "emit") && drv_nw == 5 && !strcmp(drv_w[2], "msg")) {
@@ -240,13 +72,13 @@ int main(void)
 			if (isnull) { free(dat); puts("bad-op"); continue; }
 			msg.base = dat; msg.used = dlen;
 			ev.msg = &msg;
-			int ret = mpt_dispatch_emit(&disp, &ev);
+			int ret = mpt_dispatch_emit(DISP, &ev);
 			result_ret(ret, ev.id);
 			free(dat);
 		}
 		else if (!strcmp(op, "emit") && drv_nw == 4 && !strcmp(drv_w[2], "none")) {
 			if (parse_res(drv_w[3])) { puts("bad-op"); continue; }
-			result_ret(mpt_dispatch_emit(&disp, 0), 0);
+			result_ret(mpt_dispatch_emit(DISP, 0), 0);
 		}
 		else if (!strcmp(op, "hash") && drv_nw == 4) {
 			MPT_STRUCT(event) ev = MPT_EVENT_INIT;
@@ -256,7 +88,7 @@ int main(void)
 			if (isnull) { free(dat); puts("bad-op"); continue; }
 			msg.base = dat; msg.used = dlen;
 			ev.msg = &msg;
-			int ret = mpt_dispatch_hash(&disp, &ev);
+			int ret = mpt_dispatch_hash(DISP, &ev);
 			result_ret(ret, ev.id);
 			free(dat);
 		}
@@ -264,7 +96,7 @@ int main(void)
 			uintptr_t w;
 			if (parse_id(drv_w[2], &w) || nreg >= MAXREG) { puts("bad-op"); continue; }
 			size_t r = nreg++;
-			MPT_STRUCT(command) *c = mpt_command_reserve(&disp._d, w);
+			MPT_STRUCT(command) *c = mpt_command_reserve((MPT_STRUCT(array) *) (void *) &D->_d, w);
 			if (!c) result("refused", "null", 0);
 			else {
 				char v[48], buf[32];
@@ -283,8 +115,28 @@ int main(void)
 				result(v, buf, 0);
 			}
 		}
+		else if (!strcmp(op, "drop") && drv_nw == 2) {
+			/* release the table through the generic array interface (buffer unref -> content traits fini) */
+			mpt_array_clone((MPT_STRUCT(array) *) (void *) &D->_d, 0);
+			result("ok", "0", 0);
+		}
+		else if (!strcmp(op, "tcopy") && drv_nw == 3) {
+			/* copy construction of a command element through the content traits: the element holding registration r */
+			MPT_STRUCT(command) *base, tmp;
+			size_t n = table(&base), i, r;
+			uintptr_t rv;
+			if (parse_id(drv_w[2], &rv) || rv >= nreg) { puts("bad-op"); continue; }
+			r = (size_t) rv;
+			for (i = 0; i < n; i++) if (base[i].cmd && base[i].arg == (void *) &regs[r]) break;
+			if (i >= n) { puts("bad-op"); continue; }
+			memset(&tmp, 0xa5, sizeof(tmp));
+			int ret = mpt_command_traits()->init(&tmp, base + i);
+			/* a constructed copy is destroyed again through the traits */
+			if (ret >= 0) mpt_command_traits()->fini(&tmp);
+			result_verdict(ret);
+		}
 		else if (!strcmp(op, "fini") && drv_nw == 2) {
-			mpt_dispatch_fini(&disp);
+			mpt_dispatch_fini(DISP);
 			result("ok", "0", 0);
 		}
 		else puts("bad-op");
